@@ -16,7 +16,8 @@
 //   final                        faults off, sleep 3*maxb, report convergence
 // wkind: put (insert/update, new payload version, StatusPending) | del | reins (delete+insert in
 //   one txn) | stat (status-only change as a second reconciler would do; skipped while our status
-//   is Error, see report) | statx (same, unguarded) | ref (Done -> StatusRefreshing).
+//   is Error) | statx (same, unguarded: exercises the Error-status fallback of fix 8844901) |
+//   ref (Done -> StatusRefreshing).
 package main
 
 import (
@@ -597,6 +598,16 @@ func (e *eng) tableOracle() {
 			}
 			if !seen {
 				e.flag("C15", "status-for-version-not-passed-to-update")
+			}
+			// at a quiescence point the status reports the outcome of the LAST Update of this version
+			var last *call
+			for j := range e.hist {
+				if c := &e.hist[j]; (c.op == "U" || c.op == "UB") && c.k == o.K && c.gen == o.Gen {
+					last = c
+				}
+			}
+			if last != nil && last.ok != wantOK {
+				e.flag("C15", "status-misreports-last-update-outcome")
 			}
 		}
 	}
